@@ -632,9 +632,12 @@ pub fn run_check(prop: &dyn Prop, env: &CheckEnv) -> i32 {
                 std::fs::write(&path, serde_json::to_string_pretty(small).unwrap()).expect("write replay");
                 // schedule-dependent classes showed up under 16-way contention during exploration: replay
                 // them the same way (batches of 16 concurrent fresh processes), others one at a time
-                let batch = if sched { 16 } else { 1 };
-                let mut done = 0;
-                while done < tries * batch {
+                // any class can turn out to be schedule-induced (a race in a callback shows up as a wrong
+                // total, not under a "schedule" name): when four quiet replays do not reproduce it and the
+                // scenario uses more than one worker, two contended batches follow
+                let multi = small.runs.iter().any(|r| r.threads > 1);
+                let plan: Vec<usize> = if sched { vec![16; tries] } else if multi { vec![1, 1, 1, 1, 16, 16] } else { vec![1; tries] };
+                for batch in plan {
                     let mut kids = Vec::new();
                     for _ in 0..batch {
                         if let Ok(c) = std::process::Command::new(&env.self_exe)
@@ -655,7 +658,6 @@ pub fn run_check(prop: &dyn Prop, env: &CheckEnv) -> i32 {
                             }
                         }
                     }
-                    done += batch;
                     if reproduced {
                         break 'cands;
                     }
